@@ -4,6 +4,10 @@
 // `assume_specification`, `external_type_specification` and `uninterp` below and compares the
 // multiset with ledger/trusted_base.json.
 
+// ASSUMPTION: the target has a 64-bit usize/isize (true for x86_64, the platform of this sandbox and of
+// gram's released binaries).
+global size_of usize == 8;
+
 // num-bigint's BigInt, opaque; its mathematical value is the uninterpreted `bigint_val`.
 #[verifier::external_body]
 pub struct BigInt { _p: u8 }
@@ -77,3 +81,12 @@ pub assume_specification [<isize as TryFrom<usize>>::try_from] (x: usize) -> (r:
     ensures
         x <= isize::MAX ==> r is Ok && r->Ok_0 == x,
         x > isize::MAX ==> r is Err;
+
+// error::Error: the `reason` field's `dyn` payload is never inspected by the functions under contract
+// (R2: `Rc<dyn error::Error>` -> opaque stub type).
+#[verifier::external_body]
+pub struct DynError { _p: u8 }
+
+// R5: the text of the "stuck" message is not part of C02.
+#[verifier::external_body]
+pub fn stuck_message<'a>(term: &Term<'a>) -> String { unimplemented!() }
